@@ -82,6 +82,12 @@ def eval_shared_expr(I, module, cls, expr, name):
             return v
         if isinstance(ref, External):
             return Unk(name, taint=(), src=('shared', name))
+        if isinstance(ref, FunctionInfo) and ref.cls is None:
+            from sa.model import Unfoldable
+            try:
+                return lift_shared(I.P.fold(expr, module, cls), name)
+            except Unfoldable:
+                pass
     raise AnalysisError('shared expression %s = %s not understood' % (name, norm(expr)[:60]))
 
 
